@@ -37,8 +37,9 @@ META = {
                   "as that identifier (the surplus is never read) and is not counted as malformed. A range over "
                   "several namespaces is answered INTERNAL (the builder refuses it) and is treated as not servable. "
                   "Panics caught by the recovery middleware with accessor closed and memory released satisfy the "
-                  "property. Random byte strings are sampled (300 quick / 10000 thorough), not exhaustive. Width 8 and "
-                  "beyond: stored but not swept.",
+                  "property. Random byte strings are sampled (300 quick / 10000 thorough), not exhaustive. Width 8 "
+                  "(thorough tier): a seeded sample of 250 requests per square. Blocks are served from files (store "
+                  "reopened after the puts): ODS+Q4 files, one ODS-only file, the empty block.",
     "design_ref": "DESIGN.md §5 C09",
 }
 
